@@ -59,12 +59,15 @@ def prior_activity(sym, tier):
 
 class _WallClock:
     def __init__(self, sym, tag):
-        self.sym, self.tag, self.t, self.n = sym, tag, 0, 0
+        # all readings are drawn up front: the number of monotonic() calls differs between the symbolic
+        # run (summary stubbed) and the plain replay
+        self.steps = [sym.int(f"{tag}_wall_step{i}", 0, 1000) for i in range(1, 4)]
+        self.t, self.n = 0, 0
 
     def monotonic(self):
+        if self.n < len(self.steps):
+            self.t = self.t + self.steps[self.n]
         self.n += 1
-        if self.n <= 3:
-            self.t = self.t + self.sym.int(f"{self.tag}_wall_step{self.n}", 0, 1000)
         return float(self.t)
 
 
@@ -198,7 +201,8 @@ MANIFEST = {
 
 HARNESSES = [
     H(name="c03_prior_activity", fn=prior_activity, shape="N", budget=lambda tier: 900.0 if tier == "quick" else 3000.0,
-      cubes=lambda tier: [dict(_NOFLAGS, mode=m, kind0=a, kind1=0, t2=2, B_mode=0, B_kind0=b, B_kind1=0, B_t1=1, B_t2=2, B_daemon1=0, B_daemon2=0, B_cancel1=0, B_cdm0a=0)
+      cubes=lambda tier: [dict(_NOFLAGS, mode=m, kind0=a, kind1=0, t2=2, B_mode=0, B_kind0=b, B_kind1=0, B_t1=1, B_t2=2, B_daemon1=0, B_daemon2=0, B_cancel1=0,
+                               B_cdm0a=0, **({"B_t0": 0, "B_d0b": 0} if tier == "quick" else {}))
                           for m in (0, 1) for a in (1, 3) for b in (1, 2)],
       require=lambda tier: ["three_deliveries"], classify=classify,
       functions=["reset_event_counter", "_next_sort_index", "_active_sim_context", "EventHeap.seed_event_counter", "Simulation.__init__/run"],
